@@ -139,11 +139,11 @@ def gen_tuple(rng, **kw):
     n = rng.randint(1, 4)
     pairs, seen = [], set()
     for _ in range(n):
-        key = rng.choice(WORDS + ["Color", "Display Name", "k1", "5abc"])
+        key = rng.choice(WORDS + ["Color", "Display Name", "k1", "5abc", "a.b", "Cover%", "Units/", "x.5y", "/p/q", "k.", "%"])
         if key in seen:
             continue
         seen.add(key)
-        quoted = rng.random() < 0.5 or not re.match(r"^[A-Za-z_0-9 ]+$", key)
+        quoted = rng.random() < 0.4 or not re.match(r"^[A-Za-z_0-9 ./%]+$", key)
         val = gen_scalar(rng, allow_colon=True, **kw)
         pairs.append([{"v": key, "q": rng.choice(['"', "'"]) if quoted else None}, val])
     return {"t": "tuple", "pairs": pairs, "trail": rng.random() < 0.25}
